@@ -366,6 +366,54 @@ fn c09_v4_send_error_mapping() {
     std::mem::forget(r);
 }
 
+/// C09: the error classification itself (`ErrorMapper`), for a representative of every class the
+/// send paths distinguish: only EADDRINUSE becomes AddressInUse (carrying the address), only an error of
+/// exactly the named kind becomes the transient ProbeFailed, only EINPROGRESS is swallowed; everything
+/// else — and every non-I/O error — passes through unchanged.
+#[kani::proof]
+#[kani::unwind(34)]
+fn c09_error_mapper_table() {
+    use crate::net::common::ErrorMapper;
+    let code: u8 = kani::any();
+    kani::assume(code >= 1 && code <= 7);
+    let op: u8 = kani::any();
+    kani::assume(op <= 2);
+    let addr = SocketAddr::new(IpAddr::V4(any_ipv4()), kani::any());
+    // 1 AddrInUse, 2 AddrNotAvailable, 3 EHOSTUNREACH, 4 ENETUNREACH, 5 EINPROGRESS, 6 InvalidInput, 7 PermissionDenied
+    let e1 = ErrorMapper::addr_in_use(Error::IoError(sock::mk_err(code, addr, op)), addr);
+    match (&e1, code) {
+        (Error::AddressInUse(a), 1) => assert!(*a == addr),
+        (Error::IoError(_), c) => assert!(c != 1),
+        _ => assert!(false, "addr_in_use: only EADDRINUSE maps to AddressInUse"),
+    }
+    let which: u8 = kani::any();
+    kani::assume(which <= 3);
+    let (kind, kind_code) = match which {
+        0 => (ErrorKind::HostUnreachable, 3),
+        1 => (ErrorKind::NetUnreachable, 4),
+        2 => (ADDR_NOT_AVAILABLE_KIND, 2),
+        _ => (INVALID_INPUT_KIND, 6),
+    };
+    let e2 = ErrorMapper::probe_failed(Error::IoError(sock::mk_err(code, addr, op)), kind);
+    match (&e2, code == kind_code) {
+        (Error::ProbeFailed(_), true) | (Error::IoError(_), false) => {}
+        _ => assert!(false, "probe_failed: exactly the named kind is transient"),
+    }
+    let e3 = ErrorMapper::in_progress(Error::IoError(sock::mk_err(code, addr, op)));
+    match (&e3, code) {
+        (Ok(()), 5) => {}
+        (Err(Error::IoError(_)), c) => assert!(c != 5),
+        _ => assert!(false, "in_progress: only EINPROGRESS is swallowed"),
+    }
+    // non-I/O errors pass through all three untouched
+    assert!(matches!(ErrorMapper::addr_in_use(Error::MissingAddr, addr), Error::MissingAddr));
+    assert!(matches!(ErrorMapper::probe_failed(Error::InsufficientCapacity, ErrorKind::HostUnreachable), Error::InsufficientCapacity));
+    assert!(matches!(ErrorMapper::in_progress(Error::MissingAddr), Err(Error::MissingAddr)));
+    kani::cover!(matches!(e2, Error::ProbeFailed(_)), "transient");
+    kani::cover!(e3.is_ok(), "in progress");
+    std::mem::forget((e1, e2, e3));
+}
+
 // =========================================================================== C04 / C01: the receive path
 
 fn stub_udp_ck(_data: &[u8], _src: Ipv4Addr, _dst: Ipv4Addr) -> u16 {
